@@ -13,6 +13,7 @@ use redb_verif_harness::crash::{Case, build_image, enumerate_cases, for_each_cra
 use redb_verif_harness::exec::{Config, Exec, builder, default_vlens, observe};
 use redb_verif_harness::r#gen::{Gen, Profile};
 use redb_verif_harness::util::{Args, TraceWriter, quiet_panics};
+use redb_verif_harness::v3::{self, Exec3};
 use serde_json::{Value as J, json};
 use std::collections::HashMap;
 use std::panic::{AssertUnwindSafe, catch_unwind};
@@ -85,6 +86,33 @@ fn probe_image(image: Vec<u8>, cfg: &Config, cx: &redb_verif_harness::codec::Ctx
     (j, rec)
 }
 
+/// the release that writes the history (C19: the other one reads the images)
+enum Writer {
+    Current(Exec),
+    V3(Exec3),
+}
+
+impl Writer {
+    fn step(&mut self, s: &J) -> Vec<J> {
+        match self {
+            Writer::Current(e) => e.step(s),
+            Writer::V3(e) => e.step(s),
+        }
+    }
+    fn store(&self) -> std::sync::Arc<Store> {
+        match self {
+            Writer::Current(e) => e.store.clone(),
+            Writer::V3(e) => e.store.clone(),
+        }
+    }
+    fn cx(&self) -> &redb_verif_harness::codec::Ctx {
+        match self {
+            Writer::Current(e) => &e.cx,
+            Writer::V3(e) => &e.cx,
+        }
+    }
+}
+
 struct Found {
     ev_idx: usize,
     after: bool,
@@ -105,6 +133,9 @@ fn main() {
     let steps = args.u64("steps", 80);
     let threads = args.u64("threads", 14) as usize;
     let profile = args.str("profile", "crash");
+    // C19: --writer 3 runs the history on redb 3.0.0 (the current code reads the images), --reader 3 the reverse
+    let writer3 = args.str("writer", "current") == "3";
+    let reader3 = args.str("reader", "current") == "3";
     let (exh, rnd) = if tier == "quick" { (7usize, 8usize) } else { (10usize, 48usize) };
     let second_every = args.u64("second-every", if tier == "quick" { 97 } else { 13 });
     let mut tw = TraceWriter::create(&out);
@@ -113,6 +144,7 @@ fn main() {
     let mut total_distinct = 0u64;
     let mut total_points = 0u64;
     let mut total_second = 0u64;
+    let mut total_skipped = 0u64;
     let mut total_events = 0u64;
     let mut nontrivial = 0u64;
     let mut samples: Vec<J> = vec![];
@@ -125,11 +157,13 @@ fn main() {
         let cfg = match &replay {
             Some(r) => Config::from_json(&r["cfg"]),
             None => {
-                let page_size = [512usize, 512, 1024, 4096][(run % 4) as usize];
+                // redb 3.0.0 offers no way to choose the page size: cross-release runs use the default geometry
+                let cross = writer3 || reader3;
+                let page_size = if cross { 4096 } else { [512usize, 512, 1024, 4096][(run % 4) as usize] };
                 Config {
                     seed: rseed,
                     page_size,
-                    region_size: if run % 3 == 1 { Some(1 << 16) } else { None },
+                    region_size: if run % 3 == 1 && !cross { Some(1 << 16) } else { None },
                     cache_size: [1 << 20, 0, 8 * page_size][(run % 3) as usize],
                     nkeys: 64,
                     vlens: default_vlens(page_size),
@@ -138,12 +172,12 @@ fn main() {
             }
         };
         let mut rng = StdRng::seed_from_u64(rseed);
-        let mut ex = Exec::new(cfg.clone());
+        let mut ex = if writer3 { Writer::V3(Exec3::new(cfg.clone())) } else { Writer::Current(Exec::new(cfg.clone())) };
         // the property quantifies over histories after a completed creation: trim, then record
         ex.step(&json!({"e": "reopen"}));
-        let base = ex.store.bytes();
+        let base = ex.store().bytes();
         eprintln!("run {run}: base image {} bytes, page size {}", base.len(), cfg.page_size);
-        ex.store.start_recording();
+        ex.store().start_recording();
         let mut events: Vec<J> = vec![];
         let mut script: Vec<J> = vec![];
         match &replay {
@@ -154,9 +188,9 @@ fn main() {
                 }
             }
             None => {
-                let mut g = Gen::new(Profile::by_name(&profile), &ex.cx);
+                let mut g = Gen::new(Profile::by_name(&profile), ex.cx());
                 let mut i = 0;
-                let mut run_step = |ex: &mut Exec, g: &mut Gen, step: J, events: &mut Vec<J>, script: &mut Vec<J>| {
+                let run_step = |ex: &mut Writer, g: &mut Gen, step: J, events: &mut Vec<J>, script: &mut Vec<J>| {
                     let evs = ex.step(&step);
                     g.observe(&evs);
                     events.extend(evs);
@@ -175,7 +209,7 @@ fn main() {
                 }
             }
         }
-        let log = ex.store.take_log();
+        let log = ex.store().take_log();
         let cx = cfg.ctx();
         drop(ex);
 
@@ -236,6 +270,7 @@ fn main() {
         let next = AtomicUsize::new(0);
         let images = AtomicU64::new(0);
         let second = AtomicU64::new(0);
+        let skipped = AtomicU64::new(0);
         let found: Mutex<HashMap<String, (Found, u64)>> = Mutex::new(HashMap::new());
         std::thread::scope(|sc| {
             for _ in 0..threads {
@@ -250,7 +285,23 @@ fn main() {
                         let pend: Vec<&Op> = p.pending.iter().collect();
                         let image = build_image(&p.durable, &pend, &p.cases[ci]);
                         let do_second = replay.as_ref().map_or((w as u64) % second_every == 0, |r| r["depth"].as_u64() == Some(2));
-                        let (outcome, rec) = probe_image(image, &cfg, &cx, do_second);
+                        let (outcome, rec) = if reader3 || writer3 {
+                            // C19: the image is opened by the release that did not write it; what it shows must also be
+                            // what the writing release itself shows for the same image ("identical contents")
+                            let own = if writer3 { v3::probe(image.clone(), &cfg) } else { probe_image(image.clone(), &cfg, &cx, false).0 };
+                            if writer3 && own["obs"].get("error").is_some() {
+                                // 3.0.0 cannot open this crash image of its own: not a file 3.0.0 recovers, nothing to compare
+                                skipped.fetch_add(1, Ordering::Relaxed);
+                                continue;
+                            }
+                            let mut other = if reader3 { v3::probe(image, &cfg) } else { probe_image(image, &cfg, &cx, false).0 };
+                            other["peer_same"] = json!(other["obs"] == own["obs"]);
+                            other["reader"] = json!(if reader3 { "3.0.0" } else { "current" });
+                            other["writer"] = json!(if writer3 { "3.0.0" } else { "current" });
+                            (other, None)
+                        } else {
+                            probe_image(image, &cfg, &cx, do_second)
+                        };
                         images.fetch_add(1, Ordering::Relaxed);
                         let (ev_idx, after) = owner[p.c];
                         let add = |outcome: J, depth: u8, inner: J| {
@@ -294,6 +345,7 @@ fn main() {
         });
         total_images += images.load(Ordering::Relaxed);
         total_second += second.load(Ordering::Relaxed);
+        total_skipped += skipped.load(Ordering::Relaxed);
         let found = found.into_inner().unwrap();
         total_distinct += found.len() as u64;
         // group the probes by event
@@ -315,7 +367,9 @@ fn main() {
         tw.write(&json!({"e": "reset", "run": run, "cfg": cfg.to_json(), "ops": log.len()}));
         if let Some(v) = after.get(&usize::MAX) {
             for f in v {
-                tw.write(&probe_event(f));
+                let mut p = probe_event(f);
+                p["i"] = json!(0);
+                tw.write(&p);
             }
         }
         for (idx, ev) in events.iter().enumerate() {
@@ -371,6 +425,6 @@ fn main() {
     println!(
         "{}",
         json!({"runs": runs, "events": total_events, "crash_points": total_points, "images": total_images, "second_level_images": total_second,
-               "distinct_probes": total_distinct, "probes_inside_commit": nontrivial, "samples": samples})
+               "distinct_probes": total_distinct, "images_the_writer_cannot_open": total_skipped, "probes_inside_commit": nontrivial, "samples": samples})
     );
 }
